@@ -21,7 +21,7 @@ with open('/verif/seeded/RESULTS.md', 'w') as f:
     f.write("(confirmed by `seed_verify.sh` in a scratch worktree). `-mN` = round 1, `-hN` = round 2 (designed to stay\n")
     f.write("correct inside small bounds), `-xN` = round 3 (against a described strong verifier), `-b1` = round 4 (breadth),\n")
     f.write("`-r1` = round 5 (value relations, element/key types, thresholds above 2^16, cross-object state, API histories),\n")
-    f.write("`-r2` = round 6 (callbacks that re-enter or mutate, element sizes, look-alike keys, self operands, depth thresholds), `-r3` = round 7 (recovered panics, nil interfaces, methods of the element type, far coordinates, crowds), `-sm1..sm3` = round 8 (60 plain small slips, three per property), `-o1` = written by hand.\n")
+    f.write("`-r2` = round 6 (callbacks that re-enter or mutate, element sizes, look-alike keys, self operands, depth thresholds), `-r3` = round 7 (recovered panics, nil interfaces, methods of the element type, far coordinates, crowds), `-sm1..sm3` = round 8 (60 plain small slips, three per property), `-r4` = round 9 (with a property-preserving rewrite per property, see DESIGN), `-o1` = written by hand.\n")
     f.write("Result = tier of `./vcheck.sh <ID>` that reports it.\n\n")
     f.write("| change | result | violation signature(s) | what was changed |\n|---|---|---|---|\n")
     for r in rows:
